@@ -7,6 +7,8 @@ mod loadop;
 mod modelop;
 mod model;
 mod placement;
+mod typed_specs;
+mod typedop;
 mod util;
 
 fn main() {
@@ -26,6 +28,7 @@ fn main() {
         "lexer-replay" => lexer::replay(&args),
         "load-op" => loadop::run(&args),
         "model-op" => modelop::run(&args),
+        "typed-op" => typedop::run(&args),
         "placement-replay" => placement::replay(&args),
         "placement-record" => placement::record(&args),
         other => {
